@@ -14,6 +14,7 @@ import (
 	"sort"
 	"strings"
 	"time"
+	_ "time/tzdata" // the zones the shards run under do not depend on the machine
 
 	"github.com/6tail/lunar-go/calendar"
 )
